@@ -24,6 +24,24 @@ CLAIMED["C15"] = dict(
          "SourceBlockEncoder and K+s+n <= 2^24 (the property's own domain). Tuple == RFC Tuple value-for-value is C04's template rule.",
     technique="static analysis: constant-table verification + MIR scan-schema matching + abstract interpretation (symbolic intervals) over rustc MIR")
 
+CLAIMED["C19"] = dict(
+    cat="proof", ref="DESIGN.md §3 C19",
+    text="R1: the constructor's acceptance predicate (path predicate of its normal return over normalised atomic conditions) is "
+         "boolean-equivalent to the three documented limits for positive T, Z, Al. R2: abstract interpretation shows every cast and "
+         "arithmetic step between the parameters and the compared value is lossless for all F (u64), T in 1..65535, Z in 1..255. "
+         "R3: stored fields are the parameters, accessors return them unchanged, no &mut self method, private fields.",
+    note="Trusts rustc MIR, the term normaliser (ceil-division idioms) and the interval transfer functions.",
+    technique="static analysis: path-predicate extraction + term matching + abstract interpretation over rustc MIR")
+CLAIMED["C14"] = dict(
+    cat="other", ref="DESIGN.md §3 C14",
+    text="Decides the formula and totality clauses, not the round trip: R1 matches the derivation against the RFC 6330 4.3 template "
+         "(Al/SS choice, T, Kt, N_max, descending KL(n) scan with the <= test, Z = ceil(Kt/KL(N_max)), ascending inclusive N search). "
+         "R2/R3: over the property's own domain every narrowing cast, overflow/division assert and panic in the cone is discharged; "
+         "the only reachable refusal fires when KL(N_max) = 0.",
+    note="Domain assumptions (ceil(F/T) <= 56403*255, derived Z <= 255, budget admits K'=10) are stated in the evidence; "
+         "'encoder and decoder round-trip the object' is not decided here.",
+    technique="static analysis: term-template matching against RFC formulas + abstract interpretation with entry case split")
+
 NOT_APPLICABLE = {
     "C03": "probability over random erasure patterns; no clause of it is visible in the shape of the code",
     "C06": "invertibility of 477 concrete matrices and plan-replay equality are run-time linear algebra; no sound structural proxy",
